@@ -28,6 +28,17 @@ CHECKS = {
 
 NOT_APPLICABLE = []
 
+CHECKS['C10'] = (
+    'bounded exploration of real engine runs on minidb in which the position '
+    'of the pause request, the action outcomes and guard values (and, '
+    'thorough, the delivery order) are solver variables; invariants after '
+    'every delivery and the reference semantics at quiescence',
+    'For 6 shapes (incl. the pause engine command in front of a join): while '
+    'PAUSED no task execution appears and results are still recorded; after '
+    'resume the run ends with exactly the final state and task states of an '
+    'unpaused run, for every pause position in the first 10-16 deliveries.',
+    '§3 C10')
+
 CHECKS['C04'] = (
     'symbolic execution of the real join evaluation over symbolic upstream '
     'rows; bounded exploration of real engine runs with join invariants '
